@@ -89,6 +89,12 @@ META = {
         "note": SIMNOTE,
         "technique": "Lean 4 proof (step-level and job-layer theorems) + differential correspondence check on a simulated cluster + trace monitors",
     },
+    "C15": {
+        "text": 'Lean 4 theorems over the scheduling model M7 (create_task_batches, the MILP built by run_scheduling_solver as data, take_tasks): queue order - the tasks one decision takes from a request class are exactly its highest-priority ready tasks, for every reachable queue (c15_queue_order, c15_queue_order_takeTasks, c15_queue_sorted_reachable, prio_embedding_mono), the batch loop meets its closed-form spec (c15_batches_spec), and EVERY optimal solution of the modelled MILP is priority-respecting on the fragment F = {at most one request class with ready tasks} u {one worker, at most two classes, default weights, <= 32 priority levels} (c15_partial_F, PARTIAL); outside F the statement is false of the unchanged code (three kernel-checked counterexamples, known finding F7)' + CORR,
+        "design_ref": 'DESIGN.md 7/C15',
+        "note": 'trusted: Lean kernel; HiGHS is not modelled - its solution is an input whose feasibility and optimality for the modelled MILP is checked per instance by two exhaustive enumerations (Rust and Lean); f64 objective weights compared with exact scaled integers up to 1e-4; recorder hooks tako::verif::sched_c15; quantifier: single-node single-variant cpu-only classes, no time limits, proactive filling off',
+        "technique": 'Lean 4 proof (exchange argument over optimal MILP solutions on a fragment, induction over queues; decide +kernel counterexamples) + differential correspondence check of batches/variables/weights/rows/taken ids per real scheduling round',
+    },
     "C10": {
         "text": 'Lean 4 theorems over the journal/restore model M5: c10_restore_refines (for every producible journal restore does not stop and jobs, open flags, outcomes, counters equal the spec; every pending task resubmitted once with remaining deps, next instance id and crash count - this covers the restart clauses of C03/C06/C07), c10_prefix / c10_every_crash_point (every record boundary), c10_torn_tail / c10_truncate_append (partial last record)' + CORR,
         "design_ref": 'DESIGN.md 7/C10',
